@@ -18,7 +18,7 @@ CONSTANTS NTasks, N, MaxOps, Labels, Levels, Bug
 
 Tasks == 1..NTasks
 S == 1..N
-Texts == {"noargs", "args", "pct_noargs"}
+Texts == {"noargs", "args", "pct_noargs", "mapping"}   \* mapping: "%(name)s" with a single dict argument
 
 VARIABLES par,     \* [S -> 0..N]
           phase,   \* [S -> "new" | "entered" | "finished"]
@@ -87,7 +87,7 @@ Log(t, lvl, text, exc) ==
   /\ UNCHANGED <<par, phase, label, lg, tr, cur, stack, saved, alive>>
   /\ IF cur[t] = 0
        THEN obs' = [NoLine EXCEPT !.lg = [kind |-> "root", s |-> 0], !.lvl = lvl, !.text = text, !.exc = exc]
-       ELSE IF Bug = "lost_on_format" /\ text = "args" /\ label[cur[t]] \in {"fmt", "pct"}
+       ELSE IF Bug = "lost_on_format" /\ text \in {"args", "mapping"} /\ label[cur[t]] \in {"fmt", "pct"}
          THEN obs' = [LineOf(cur[t], lvl, "FORMAT-ERROR", exc) EXCEPT !.res = "ok"]
          ELSE obs' = LineOf(cur[t], IF Bug = "warning_as_error" /\ lvl = "warning" THEN "error" ELSE lvl, text, exc)
 
